@@ -528,6 +528,78 @@ end
 section
 variable {a b : Nat} {P : Nat → Prop} {sh0 : Nat → Option Node} {old : List Nat} {ext : Nat → Nat}
 
+/-- reference counters around the orphan check: the entries that stay in the new upper table
+keep their counter, and an old child that stays had a counter different from 1 (it is still
+referenced) -/
+theorem orphan_rc (hp : Pre a b P sh0 old)
+    {h : Heap} {up lo todo : List Nat} (hj : J a b P sh0 old ext h.sh up lo todo) {c : Edge}
+    (hc : Bel a b P sh0 c ∨ ∃ k, c = .inner k ∧ k ∈ up ∧ SurvL b sh0 h.sh k)
+    {h' : Heap} {up' : List Nat} (he : orphan b (h, up) c = (h', up')) :
+    (∀ k ∈ up', h'.rcOf k = h.rcOf k) ∧
+    (∀ k, c = .inner k → k ∈ up' → (∃ mk, h.sh k = some mk ∧ mk.level = b) → h.rcOf k ≠ 1) := by
+  unfold orphan at he
+  cases c with
+  | term v =>
+    cases he
+    exact ⟨fun _ _ => rfl, fun k hk => by cases hk⟩
+  | inner j =>
+    simp only at he
+    cases hm : h.get? j with
+    | none =>
+      rw [hm] at he; cases he
+      refine ⟨fun _ _ => rfl, fun k hk _ hex => ?_⟩
+      injection hk with hk; subst hk
+      obtain ⟨mk, hmk, _⟩ := hex
+      rw [sh_eq_none.mpr hm] at hmk; cases hmk
+    | some m =>
+      rw [hm] at he
+      simp only at he
+      have hsj : h.sh j = some m.toNode := by simp [Heap.sh, hm]
+      by_cases hcond : m.level = b ∧ m.rc = 1
+      · rw [if_pos hcond] at he
+        rcases hc with ⟨n', hn', h1, h2, _⟩ | ⟨k, hk, hju, hsv⟩
+        · exfalso
+          have := hj.frame j n' hn' h1 h2
+          rw [hsj] at this; cases this
+          exact h2 hcond.1
+        · injection hk with hk; subst hk
+          have hlk : lookup h up m.t m.e = some j := by
+            cases hl : lookup h up m.t m.e with
+            | none => exact absurd hsj (lookup_none hl j hju m.level)
+            | some j' =>
+              obtain ⟨h1, l, h2⟩ := lookup_some hl
+              rw [hj.up_unique hp h1 hju h2 hsj]
+          unfold tblRemove at he
+          rw [hlk] at he; simp only at he
+          cases he
+          have hbel := survL_bel hp hsv hsj
+          refine ⟨fun k hk => ?_, fun k hk hk' _ => ?_⟩
+          · have hkj := hj.ndUp.mem_erase_iff.mp hk
+            -- `k` is not a child of the freed node: its children are below, `k` is in the table
+            have hnb : ¬ Bel a b P sh0 (.inner k) := by
+              rintro ⟨nk, hnk, g1, g2, _⟩
+              rcases hj.upC k hkj.2 with ⟨n0, f1, f2, _⟩ | ⟨f1, _⟩
+              · rw [hnk] at f1; cases f1; exact g2 f2
+              · obtain ⟨n0, f2, f3⟩ := (hp.old_iff k).mp f1
+                rw [hnk] at f2; cases f2; exact g1 f3
+            have ht : pt m.t k = 0 := by
+              simp only [pt]; rw [if_neg]; intro h'; exact hnb (h' ▸ hbel.1)
+            have he' : pt m.e k = 0 := by
+              simp only [pt]; rw [if_neg]; intro h'; exact hnb (h' ▸ hbel.2)
+            unfold dropTableEdge
+            rw [hm]; simp only [hcond.2, if_true]
+            rw [rcOf_decRc, rcOf_decRc, rcOf_put, if_neg hkj.1, ht, he']
+            omega
+          · injection hk with hk; subst hk
+            exact absurd hk' (fun h' => (hj.ndUp.mem_erase_iff.mp h').1 rfl)
+      · rw [if_neg hcond] at he; cases he
+        refine ⟨fun _ _ => rfl, fun k hk _ hex => ?_⟩
+        injection hk with hk; subst hk
+        obtain ⟨mk, hmk, hlv⟩ := hex
+        rw [hsj] at hmk; cases hmk
+        rw [rcOf_of_get? hm]
+        exact fun h1 => hcond ⟨hlv, h1⟩
+
 /-- the loop invariant: shapes (`J`) and reference counts -/
 structure LInv (a b : Nat) (P : Nat → Prop) (sh0 : Nat → Option Node) (old : List Nat) (ext : Nat → Nat)
     (R : Nat → Nat) (st : LS) (todo : List Nat) : Prop where
@@ -573,23 +645,34 @@ theorem SurvL.congr {sh sh' : Nat → Option Node} {k : Nat} (h : SurvL b sh0 sh
   obtain ⟨n, h1, h2, h3⟩ := h
   exact ⟨n, h1, h2, he ▸ h3⟩
 
-theorem stepNode_rewrite {al : Heap → Nat} (hal : ∀ h : Heap, h.get? (al h) = none)
+/-- the loop state after rewriting entry `i` (`gt`, `ge`: the grandchildren) -/
+def rewriteLS (al : Heap → Nat) (a b : Nat) (old : List Nat) (st : LS) (i : Nat) (m : SNode)
+    (gt ge : Edge × Edge) : LS :=
+  let r0 := mkChild al a old (st.h, st.lo) gt.1 ge.1
+  let r1 := mkChild al a old r0.1 gt.2 ge.2
+  let h2 := setChildT r1.1.1 i r0.2
+  let h3 := setChildE h2 i r1.2
+  let h4 := setLevel h3 i b
+  let r5 := tblInsert (incRc h4 (.inner i)) st.up i
+  let r6 := orphan b r5 m.t
+  let r7 := if m.e = m.t then r6 else orphan b r6 m.e
+  { h := r7.1, up := r7.2, lo := r1.1.2 }
+
+theorem stepNode_rewrite_full {al : Heap → Nat} (hal : ∀ h : Heap, h.get? (al h) = none)
     (hp : Pre a b P sh0 old) {R : Nat → Nat} (hR : ∀ k, ext k ≤ R k) {st : LS}
     {i : Nat} {todo : List Nat} (hinv : LInv a b P sh0 old ext R st (i :: todo))
     {m : SNode} (hm : st.h.get? i = some m) (hn : sh0 i = some m.toNode)
     (hnb : ¬ (Bel a b P sh0 m.t ∧ Bel a b P sh0 m.e)) :
     LInv a b P sh0 old ext R
-      (let gt := cof0 b sh0 m.t
-       let ge := cof0 b sh0 m.e
-       let r0 := mkChild al a old (st.h, st.lo) gt.1 ge.1
-       let r1 := mkChild al a old r0.1 gt.2 ge.2
-       let h2 := setChildT r1.1.1 i r0.2
-       let h3 := setChildE h2 i r1.2
-       let h4 := setLevel h3 i b
-       let r5 := tblInsert (incRc h4 (.inner i)) st.up i
-       let r6 := orphan b r5 m.t
-       let r7 := if m.e = m.t then r6 else orphan b r6 m.e
-       { h := r7.1, up := r7.2, lo := r1.1.2 }) todo := by
+      (rewriteLS al a b old st i m (cof0 b sh0 m.t) (cof0 b sh0 m.e)) todo ∧
+    (∀ k ∈ (rewriteLS al a b old st i m (cof0 b sh0 m.t) (cof0 b sh0 m.e)).up, k = i ∨ k ∈ st.up) ∧
+    (∀ k, (m.t = .inner k ∨ m.e = .inner k) →
+      k ∈ (rewriteLS al a b old st i m (cof0 b sh0 m.t) (cof0 b sh0 m.e)).up →
+      (∃ mk, sh0 k = some mk ∧ mk.level = b) →
+      (rewriteLS al a b old st i m (cof0 b sh0 m.t) (cof0 b sh0 m.e)).h.rcOf k ≠ 1) ∧
+    (∀ k ∈ st.up, k ∉ (rewriteLS al a b old st i m (cof0 b sh0 m.t) (cof0 b sh0 m.e)).up →
+      (m.t = .inner k ∨ m.e = .inner k)) := by
+  unfold rewriteLS
   have hj := hinv.j
   have hit : i ∈ i :: todo := by simp
   obtain ⟨n', hsi, hn', hla⟩ := hj.todo_live hp hit
@@ -670,10 +753,31 @@ theorem stepNode_rewrite {al : Heap → Nat} (hal : ∀ h : Heap, h.get? (al h) 
       exact hlive k (hj.up_live hku)
   obtain ⟨h6, up6, e6, J6, RC6, keep6, rem6⟩ :=
     orphan_spec hp hR J5 RC5 (hchild m.t hcf_t.1 hcf_t.2.2)
+  have rc6 := orphan_rc hp J5 (hchild m.t hcf_t.1 hcf_t.2.2) e6
+  -- an old child at the old lower level is seen unchanged after the rewrite
+  have hsurv5 : ∀ c, (Bel a b P sh0 c ∨ AtB b sh0 c) →
+      (AtB b sh0 c → ∃ k, c = .inner k ∧ k ∈ st.up ∧ SurvL b sh0 st.h.sh k) →
+      ∀ k, c = .inner k → (∃ mk, sh0 k = some mk ∧ mk.level = b) →
+      ∃ mk, h5.sh k = some mk ∧ mk.level = b := by
+    intro c hc1 hc2 k hck hex
+    rcases hchild c hc1 hc2 with hb | ⟨k', hck', _, n0, f1, f2, f3⟩
+    · subst hck
+      obtain ⟨nk, hnk, _, g2, _⟩ := hb
+      obtain ⟨mk, hmk, hlv⟩ := hex
+      rw [hnk] at hmk; cases hmk; exact absurd hlv g2
+    · rw [hck] at hck'; injection hck' with hck'; subst hck'
+      exact ⟨n0, f3, f2⟩
   simp only [e6]
   by_cases hte : m.e = m.t
   · simp only [hte, if_true]
-    exact ⟨J6, RC6⟩
+    refine ⟨⟨J6, RC6⟩, fun k hk => ?_, fun k hc hk hex => ?_, fun k hk hk' => ?_⟩
+    · rcases List.mem_cons.mp (keep6 k hk).1 with h | h
+      · exact Or.inl h
+      · exact Or.inr h
+    · have hct : m.t = .inner k := by rcases hc with h | h; exact h; exact hte ▸ h
+      rw [rc6.1 k hk]
+      exact rc6.2 k hct hk (hsurv5 m.t hcf_t.1 hcf_t.2.2 k hct hex)
+    · exact Or.inl (rem6 k (by simp [hk]) hk')
   · simp only [hte, if_false]
     have hce : Bel a b P sh0 m.e ∨ ∃ k, m.e = .inner k ∧ k ∈ up6 ∧ SurvL b sh0 h6.sh k := by
       rcases hchild m.e hcf_e.1 hcf_e.2.2 with h | ⟨k, hck, hku, hsv⟩
@@ -683,9 +787,32 @@ theorem stepNode_rewrite {al : Heap → Nat} (hal : ∀ h : Heap, h.get? (al h) 
           intro hk6
           exact hte (hck.trans (rem6 k hku hk6).symm)
         exact Or.inr ⟨k, hck, hk6, hsv.congr (keep6 k hk6).2⟩
-    obtain ⟨h7, up7, e7, J7, RC7, _, _⟩ := orphan_spec hp hR J6 RC6 hce
+    obtain ⟨h7, up7, e7, J7, RC7, keep7, rem7⟩ := orphan_spec hp hR J6 RC6 hce
+    have rc7 := orphan_rc hp J6 hce e7
     simp only [e7]
-    exact ⟨J7, RC7⟩
+    refine ⟨⟨J7, RC7⟩, fun k hk => ?_, fun k hc hk hex => ?_, fun k hk hk' => ?_⟩
+    · rcases List.mem_cons.mp (keep6 k (keep7 k hk).1).1 with h | h
+      · exact Or.inl h
+      · exact Or.inr h
+    · have hk6 := (keep7 k hk).1
+      rw [rc7.1 k hk]
+      rcases hc with hct | hce'
+      · rw [rc6.1 k hk6]
+        exact rc6.2 k hct hk6 (hsurv5 m.t hcf_t.1 hcf_t.2.2 k hct hex)
+      · obtain ⟨mk, hmk, hlv⟩ := hsurv5 m.e hcf_e.1 hcf_e.2.2 k hce' hex
+        exact rc7.2 k hce' hk ⟨mk, by rw [(keep6 k hk6).2]; exact hmk, hlv⟩
+    · by_cases hk6 : k ∈ up6
+      · exact Or.inr (rem7 k hk6 hk')
+      · exact Or.inl (rem6 k (by simp [hk]) hk6)
+
+theorem stepNode_rewrite {al : Heap → Nat} (hal : ∀ h : Heap, h.get? (al h) = none)
+    (hp : Pre a b P sh0 old) {R : Nat → Nat} (hR : ∀ k, ext k ≤ R k) {st : LS}
+    {i : Nat} {todo : List Nat} (hinv : LInv a b P sh0 old ext R st (i :: todo))
+    {m : SNode} (hm : st.h.get? i = some m) (hn : sh0 i = some m.toNode)
+    (hnb : ¬ (Bel a b P sh0 m.t ∧ Bel a b P sh0 m.e)) :
+    LInv a b P sh0 old ext R
+      (rewriteLS al a b old st i m (cof0 b sh0 m.t) (cof0 b sh0 m.e)) todo :=
+  (stepNode_rewrite_full hal hp hR hinv hm hn hnb).1
 end
 
 end OxiddModel.Reorder.SwapStore
